@@ -193,13 +193,13 @@ func c09ServerHistories(tier string) [][]int {
 	return out
 }
 
-func c09ServerScenario(name string, frames []c2sFrame, negotiate bool, opt Options) *Scenario {
+func c09ServerScenario(prop, name string, frames []c2sFrame, negotiate bool, opt Options) *Scenario {
 	var names []string
 	for _, f := range frames {
 		names = append(names, f.name)
 	}
 	return &Scenario{
-		Name: name, Prop: "C09",
+		Name: name, Prop: prop,
 		Desc: fmt.Sprintf("scripted raw tunnel client sends %v to the real tunnel server (handlers read everything and return OK), then hangs up", names),
 		Opt:  opt,
 		Run: func(w *World) {
@@ -226,12 +226,12 @@ func c09ServerScenario(name string, frames []c2sFrame, negotiate bool, opt Optio
 			w.Drain()
 		},
 		Check: func(w *World, x *Exec) []Violation {
-			vs := NoHang(x, "C09")
+			vs := NoHang(x, prop)
 			if x.Hang {
 				return vs
 			}
 			bad := func(rule, sig, d string) {
-				vs = append(vs, Violation{Prop: "C09", Rule: rule, Sig: sig, Detail: fmt.Sprintf("%v: %s\n%s", names, d, w.Outcome())})
+				vs = append(vs, Violation{Prop: prop, Rule: rule, Sig: sig, Detail: fmt.Sprintf("%v: %s\n%s", names, d, w.Outcome())})
 			}
 			rc, _ := w.Vals["rc"].(*RawClient)
 			if rc == nil {
@@ -273,7 +273,7 @@ func c09ServerScenario(name string, frames []c2sFrame, negotiate bool, opt Optio
 			for _, wn := range mustWindows(w) {
 				bad("bounded-buffering", "peer:receiver-window-corrupt", wn)
 			}
-			vs = append(vs, NoLeak(w, x, "C09")...)
+			vs = append(vs, NoLeak(w, x, prop)...)
 			return vs
 		},
 	}
@@ -314,7 +314,7 @@ func c09Scenarios(tier string) []*Scenario {
 			fr = append(fr, alpha[i])
 			nm = append(nm, alpha[i].name)
 		}
-		scs = append(scs, c09ServerScenario("c09/h1s/"+strings.Join(nm, ","), fr, true, Options{Level: "io", Bound: 0}))
+		scs = append(scs, c09ServerScenario("C09", "c09/h1s/"+strings.Join(nm, ","), fr, true, Options{Level: "io", Bound: 0}))
 	}
 	scs = append(scs, c09ClientScenarios(tier)...)
 	return scs
